@@ -3896,7 +3896,7 @@ let to_ascii_vec d =
 let ds_to_string d =
   obind0 (ds_to_bytes d) (fun l -> Some (map bits_to_base_ch l))
 
-(** val pack_be : dna -> n **)
+(** val pack_be : n list -> n **)
 
 let pack_be g =
   N.mul (rank g)
@@ -3906,7 +3906,7 @@ let pack_be g =
           (S (S (S (S (S (S (S (S (S (S (S O))))))))))))))))))))))))))))))))
           (length g))))
 
-(** val ds_of_dna : dna -> dstr **)
+(** val ds_of_dna : n list -> dstr **)
 
 let ds_of_dna l =
   { ds_storage =
